@@ -116,7 +116,17 @@ def run(A, R: Report, thorough: bool):
     finit = task.lookup('_init_run_info')
     dicts = [n for n in A.typer.own_nodes(finit) if isinstance(n, ast.Assign) and any(src(t) == 'self._run_info' for t in n.targets) and isinstance(n.value, ast.Dict)]
     if not dicts:
-        R.undecided('R18.4', 'Task._init_run_info', 'record is not built as a dict literal assigned to self._run_info', where=where(finit))
+        # symbolic value of the record: it must be built afresh on every call; a copy of something kept on the task shares the nested `log` list between runs
+        A.sym._field_stores = []
+        A.sym.func_term(finit, ('inst', task))
+        from ..terms import dag_nodes, normalise, pretty
+        st = [normalise(v) for c, t, v in A.sym._field_stores if t.attr == '_run_info' and isinstance(t.value, ast.Name) and t.value.id == 'self']
+        kept = [x for v in st for x in dag_nodes(v) if x[0] == 'attr' and x[1] == ('self',) and x[2] not in ('slugname', 'parameters', 'params', '_config', '__class__')]
+        if st and kept:
+            R.violation('R18.4', 'Task._init_run_info', key_of('record-from-state', sorted({k[2] for k in kept})), f'the run record is derived from state kept on the task (`self.{kept[0][2]}`): nested parts such as the `log` list are shared '
+                        'between runs of the same object, so records of a failed or earlier run reappear in the next run\'s run info', witness=[pretty(st[0])[:200]], where=where(finit))
+        else:
+            R.undecided('R18.4', 'Task._init_run_info', 'record is not built as a dict literal assigned to self._run_info', where=where(finit))
     else:
         d = dicts[0].value
         keys = {k.value: v for k, v in zip(d.keys, d.values) if isinstance(k, ast.Constant)}
@@ -151,3 +161,17 @@ def run(A, R: Report, thorough: bool):
     R.require(fsave is not None, 'anchor: Task.save_to_run_info missing')
     appends = [n for n in A.typer.own_nodes(fsave) if isinstance(n, ast.Call) and isinstance(n.func, ast.Attribute) and n.func.attr == 'append' and "_run_info['log']" in src(n.func.value)]
     R.check(bool(appends), 'R18.4', 'Task.save_to_run_info', key_of('append'), 'records appended in order', 'save_to_run_info does not append to the run-info log', where=where(fsave))
+
+
+    # ---- R18.5 run info and log are read from storage on every request
+    from .purity import check_stateless
+    R.rule('R18.5', 'run_info / log readers keep no per-object copy: every request reads what the latest run stored', floor=2)
+    for ci in data.all_subclasses():
+        for m in ('load_run_info', 'log'):
+            fm = ci.methods.get(m)
+            if fm is not None:
+                check_stateless(A, R, 'R18.5', fm.short, [Ctx(fm, ('inst', k)) for k in ci.all_subclasses() if k.lookup(m) is fm],
+                                'a record cached on one data object keeps describing an old run after another task object (other chain, same location) recomputed the result', at=where(fm))
+    for m in ('run_info', 'log'):
+        fm = task.lookup(m)
+        check_stateless(A, R, 'R18.5', fm.short, [Ctx(fm, ('inst', task))], 'run records must be read from storage, not from the task object', at=where(fm))
